@@ -268,8 +268,8 @@ impl StringLines {
     }
 
     /// Get the nth line in this string.
-    pub fn get(&self, idx: usize) -> Option<char> {
-        self.0.0.get(idx..).and_then(|s| s.chars().next())
+    pub fn get(&self, idx: usize) -> Option<RotoString> {
+        self.0.0.lines().nth(idx).map(RotoString::new)
     }
 
     /// Slice this string by lines.
